@@ -36,6 +36,8 @@ func init() {
 		Explanation: "wip"}
 	props["C12"] = &PropSpec{ID: "C12", Engines: []string{"SHARED"}, Rules: []string{"SHARED", "IMMUT", "ALIAS", "HASH"},
 		Explanation: "wip"}
+	props["C13"] = &PropSpec{ID: "C13", Engines: []string{"UNSAT"}, Rules: []string{"UNSAT"},
+		Explanation: "wip"}
 	props["C17"] = &PropSpec{ID: "C17", Engines: []string{"ERRPRED"}, Rules: []string{"ERRPRED", "RESULTLIT", "LEN"},
 		Explanation: "wip"}
 	props["C18"] = &PropSpec{ID: "C18", Engines: []string{"HEAP"}, Rules: []string{"HEAP"},
